@@ -88,7 +88,7 @@ def c18_row(idx, d, e):
         return None
     name = "row%d" % idx
     mac = "macro_rules! %s { () => {{ %s }}; }\nconst C_%s: [i64; 6] = %s!();\n#[inline(never)] fn rt_%s() -> [i64; 6] { %s!() }\n" % (name, body, name.upper(), name, name, name)
-    rec = ('    println!("{{{{\\"ev\\":\\"constrt\\",\\"api\\":\\"%s\\",\\"ety\\":\\"%s\\",\\"n\\":%d,\\"l\\":%d,\\"m\\":%d,\\"cv\\":{:?},\\"rv\\":{:?}}}}}", C_%s, rt_%s());\n'
+    rec = ('    println!("{{\\"ev\\":\\"constrt\\",\\"api\\":\\"%s\\",\\"ety\\":\\"%s\\",\\"n\\":%d,\\"l\\":%d,\\"m\\":%d,\\"cv\\":{:?},\\"rv\\":{:?}}}", C_%s, rt_%s());\n'
            % (api, e, n, l, m, name.upper(), name))
     return mac, rec
 
